@@ -31,7 +31,7 @@ def _solve(args):
 
 def run(chk):
     for cfg in ("Pool.cfg", "Pool_chunk2.cfg"):
-        r = chk.tlc("Pool", cfg, label="pool design " + cfg)
+        r = chk.tlc("Pool", cfg, coverage=True, label="pool design " + cfg)
         if r.violated:
             raise MachineryError(f"Pool design violated: {r.counterexample()[:2000]}")
     chk.tlc("Pool", "Pool_unordered.cfg", expect_violation="C03_ScheduleFree", label="vacuity guard: completion-order collection")
